@@ -166,6 +166,9 @@ def tlc(module, cfg, *, workers=8, simulate=None, depth=None, seed=None, env=Non
         m = _STATS.search(line)
         if m:
             r.generated, r.distinct = int(m.group(1)), int(m.group(2))
+        m = re.search(r"The number of states generated: (\d+)", line)
+        if m:
+            r.generated = r.distinct = int(m.group(1))
         m = _DEPTH.search(line)
         if m:
             r.depth = int(m.group(1))
